@@ -452,14 +452,29 @@ def d6_counters(facts, rep):
                     for b, si in zero_edges)
             rep.ob('D6', 'K4', fn, 'the parent vertex is %sd exactly on the zero result of the RMW' % fwd, ok,
                    'reference_vertex::%s forwards to its parent on the wrong edge or not on every zero result' % name)
-    # fold_tree: decrement by RMW, return while >0, delete node, release wait node after the loop
-    ft = facts.get(D1 + 'fold_tree')
+    # the tree folds (derived from the code: free functions every path of which decrements a node counter): decrement by RMW,
+    # return while > 0, delete the node, and the root wait node is released - by the fold itself or, when the fold hands the root
+    # back, by every caller after the call
+    from rules.common import tree_folds
+    ft = [f for p_ in sorted(tree_folds(facts)) for f in facts.get(p_)]
+    if not any(f.p == D1 + 'fold_tree' for f in ft):
+        raise AnalysisBroken('fold_tree is no longer recognised as a tree fold')
     for fn in ft:
         ops = atomics_on(fn, 'm_ref_count', kinds=('store', 'rmw', 'cas'))      # (debug builds add an assertion-only load)
         ok = bool(ops) and all(o['kind'] == 'rmw' for _, o in ops)
-        rep.ob('D6', 'K1', fn, 'fold_tree decrements the node counter by an atomic RMW', ok, ', '.join(o['name'] for _, o in ops))
+        rep.ob('D6', 'K1', fn, 'the tree fold changes the node counter only by atomic RMWs', ok, ', '.join(o['name'] for _, o in ops))
         rel = calls_named(fn, ('release',))
-        rep.ob('D6', 'K4', fn, 'fold_tree releases the root wait vertex', bool(rel), 'no release() call in fold_tree')
+        if rel:
+            rep.ob('D6', 'K4', fn, 'the tree fold releases the root wait vertex', True, '')
+            continue
+        bad = []
+        cs = facts.callers_p(fn.p)
+        for g, cpos, cs_ in cs:
+            r2 = [c for c in calls_named(g, ('release',)) if g.can_reach(cpos, c[0])]
+            if not r2:
+                bad.append(g.q)
+        rep.ob('D6', 'K4', fn, 'the root wait vertex handed back by the tree fold is released by every caller', bool(cs) and not bad,
+               'callers that never release the root: %s' % (sorted(set(bad))[:3] or 'no caller found'))
     rep.floor('D6', 6, 'wait_context, reference_vertex, fold_tree')
 
 
